@@ -23,7 +23,10 @@ _CMP = {ast.Eq: operator.eq, ast.NotEq: operator.ne, ast.Lt: operator.lt, ast.Lt
 _BIN = {ast.Add: operator.add, ast.Sub: operator.sub, ast.Mult: operator.mul, ast.Mod: operator.mod, ast.FloorDiv: operator.floordiv,
         ast.Div: operator.truediv}
 _FUNCS = {"all": all, "any": any, "int": int, "len": len, "abs": abs, "min": min, "max": max, "sum": sum, "set": set, "tuple": tuple,
-          "list": list, "sorted": sorted, "float": float, "bool": bool, "round": round}
+          "list": list, "sorted": sorted, "float": float, "bool": bool, "round": round, "zip": lambda *a: list(zip(*a)), "dict": dict,
+          "enumerate": lambda *a: list(enumerate(*a)), "range": range, "reversed": lambda a: list(reversed(a)), "frozenset": frozenset}
+_METHODS = {(dict, "keys"): lambda d: list(d.keys()), (dict, "values"): lambda d: list(d.values()), (dict, "items"): lambda d: list(d.items()),
+            (tuple, "count"): tuple.count, (list, "count"): list.count, (tuple, "index"): tuple.index, (list, "index"): list.index}
 _TYPES = {"int": int, "float": float, "Integral": numbers.Integral, "Number": numbers.Number, "Real": numbers.Real, "tuple": tuple, "list": list,
           "dict": dict, "str": str, "bool": bool}
 
@@ -112,11 +115,32 @@ def evaluate(node, env):
                 return isinstance(ev(n.args[0], env), tuple(ts))
             if n.func.id in _FUNCS:
                 try:
-                    return _FUNCS[n.func.id](*[ev(a, env) for a in n.args])
+                    argv = []
+                    for a in n.args:
+                        if isinstance(a, ast.Starred):
+                            argv.extend(list(ev(a.value, env)))
+                        else:
+                            argv.append(ev(a, env))
+                    return _FUNCS[n.func.id](*argv)
                 except CannotEvaluate:
                     raise
                 except Exception as e:  # noqa: BLE001   e.g. int('a'): the guard itself would raise
                     raise CannotEvaluate(f"{n.func.id} raised {type(e).__name__}") from e
+        if isinstance(n, ast.Call) and isinstance(n.func, ast.Attribute) and not n.keywords:
+            recv = ev(n.func.value, env)
+            for (ty, nm), f in _METHODS.items():
+                if nm == n.func.attr and isinstance(recv, ty):
+                    try:
+                        return f(recv, *[ev(a, env) for a in n.args])
+                    except CannotEvaluate:
+                        raise
+                    except Exception as e:  # noqa: BLE001
+                        raise CannotEvaluate(f"{nm} raised {type(e).__name__}") from e
+        if isinstance(n, ast.Subscript) and isinstance(n.slice, ast.Slice):
+            sl = n.slice
+            return ev(n.value, env)[slice(*(None if b is None else ev(b, env) for b in (sl.lower, sl.upper, sl.step)))]
+        if isinstance(n, ast.Starred):
+            raise CannotEvaluate("starred")
         raise CannotEvaluate(ast.unparse(n)[:60])
 
     def bind(t, v, env_):
